@@ -23,7 +23,7 @@ Sharded(C) == {c \in C : ShardOf(c) = Shard}
 
 Mk(mins, maxs, tols, fails, errs, cfes, Ls, offs, c0s, srcs) ==
   { c \in [min : mins, max : maxs, tol : tols, failures : fails, errors : errs, cfe : cfes,
-           L : Ls, t : -3..2, offset : offs, c0 : c0s, src : srcs,
+           L : Ls, t : -3..2, lags : {0}, leads : {0}, offset : offs, c0 : c0s, src : srcs,
            st0 : {"-"}, it0 : {-1}] :
       /\ c.t >= -c.L /\ c.t < c.L
       /\ Len(c.src) = Len(c.c0)
@@ -36,7 +36,8 @@ CoreCfgs == { c \in Mk(0..(MaxI + 1), 0..MaxI, {0, 1, 2}, {"raise", "ignore"},
 CoreOuts == {S(0), S(1), S(2), S(NaN), S(PInf), W(NaN), W(NInf), X}
 
 (* S-guard: period spellings x offsets x span lengths x the three up-front rejections *)
-GuardCfgs == { [c EXCEPT !.st0 = s, !.it0 = (IF s = "-" THEN -1 ELSE 1)] : s \in {"-", ".", "F"}, c \in Mk({0, 2}, {1}, {1}, {"raise", "ignore"}, {"raise", "ignore", "skip"}, {TRUE}, 1..3, -2..2,
+GuardCfgs == { [c EXCEPT !.st0 = s, !.it0 = (IF s = "-" THEN -1 ELSE 1), !.lags = ll[1], !.leads = ll[2]] :
+                 s \in {"-", ".", "F"}, ll \in {<<0, 0>>, <<1, 0>>, <<0, 1>>, <<1, 1>>}, c \in Mk({0, 2}, {1}, {1}, {"raise", "ignore"}, {"raise", "ignore", "skip"}, {TRUE}, 1..3, -2..2,
                         {<<0>>, <<NaN>>}, {<<0>>, <<1>>, <<PInf>>}) }
 GuardOuts == {S(0), S(1)}
 
